@@ -34,6 +34,10 @@ type ArgDecl struct {
 	Int    bool
 	EnvSet bool // backed by a set environment variable (value "argenv")
 	Hide   bool // declared with HideValue (only the help may differ)
+	// FlagLike: the argument's value type says IsBoolFlag (as BoolArg does); Default: a non-empty declared default.
+	// Neither changes what the spec, generated or written, accepts.
+	FlagLike bool
+	Default  string
 }
 
 type Prog struct {
